@@ -12,7 +12,7 @@ import (
 )
 
 func init() {
-	register("C19", "Structural clauses of metadata-only transfer, decided on all paths of the receive loop: the id counter advances for every announced entry including the skipped listing-file name (finding F1, fixed); in metadata mode every announced entry other than the listing file's own name is framed into the buffer before the loop continues; a frame is alloc(size+4) with the 32-bit little-endian size written to the first four bytes and the stat marshalled (checked) into the rest of the same slice; ids are registered only for selected regular files; an entry the selector rejected is never forwarded to the disk writer, pending ancestors are replayed before a selected entry and the pending list is cleared; the listing file is written only after the checked group wait, after removing any previous entry of that name, with write and close checked. The pending-ancestors stack top is inspected in every iteration before anything is pushed. Does not decide the chunk arithmetic of the buffer, the ancestor stack for all tree shapes, or removal of stale entries.", runC19)
+	register("C19", "Structural clauses of metadata-only transfer, decided on all paths of the receive loop: the id counter advances for every announced entry including the skipped listing-file name (finding F1, fixed); in metadata mode every announced entry other than the listing file's own name is framed into the buffer before the loop continues; a frame is alloc(size+4) with the 32-bit little-endian size written to the first four bytes and the stat marshalled (checked) into the rest of the same slice; ids are registered only for selected regular files; an entry the selector rejected is never forwarded to the disk writer, pending ancestors are replayed before a selected entry and the pending list is cleared; the listing file is written only after the checked group wait, after removing any previous entry of that name, with write and close checked. The pending-ancestors stack top is inspected in every iteration before anything is pushed. An announced entry named like the listing file is neither forwarded nor registered; push/pop/clear of the ancestor stack do what their names say and the unwinding loop pops. Does not decide the chunk arithmetic of the buffer, the ancestor stack for all tree shapes, or removal of stale entries.", runC19)
 }
 
 func runC19(c *Ctx) {
